@@ -5,6 +5,8 @@ Stream-direction and final-size rules of `qrecovery`:
 
 * `codeGate` — the role/direction test at the head of every arm of `DataStreams::recv_data` /
   `DataStreams::recv_stream_control` (`streams/raw.rs`): STREAM_STATE_ERROR, `try_accept_sid`, or fall through;
+* `checksCreated` — the arms in which a locally initiated id is then compared with
+  `LocalStreamIds::opened_streams` (`check_local_created`: STREAM, STOP_SENDING, MAX_STREAM_DATA);
 * `resetRx` — `Recv::recv_reset`, `SizeKnown::recv_reset` (`recv/recver.rs`) as dispatched by
   `Incoming::recv_reset`; the STREAM side (`Recv::determin_size`, `Recv::recv`, `SizeKnown::recv`) is
   `StreamWindow.RecvHalf.rx true` (C11's model of the tree with the FIN-limit fix, reused unchanged);
@@ -37,6 +39,12 @@ def codeGate (k : FrameKind) (peerInit : Bool) (d : Dir) : Gate :=
     -- "对方必须是接收端": the peer must be the receiver
     if peerInit then (if d = .uni then .streamState else .accept) else .pass
 
+/-- The arms of `recv_data` / `recv_stream_control` that call `check_local_created` for a locally initiated
+stream id (after the direction test): `sid.id() >= opened_streams(dir)` ⇒ STREAM_STATE_ERROR. -/
+def checksCreated : FrameKind → Bool
+  | .stream | .stopSending | .maxStreamData => true
+  | .resetStream | .streamDataBlocked => false
+
 inductive ErrKind | streamLimit | streamState | finalSize | flowControl
 deriving Repr, DecidableEq
 
@@ -45,13 +53,17 @@ deriving Repr, DecidableEq
 inductive ResetObs
   | sync (n : Nat)   -- `Ok(final_size - largest)` / `Ok(())` ↦ 0
   | finalSize
+  | flowControl      -- `Recv::recv_reset`: `final_size > max_stream_data`
 deriving Repr, DecidableEq
 
 /-- `Incoming::recv_reset`; `none` = the `unreachable!()` arm (state after all data was received: the
 stream has left the input set, `DataStreams` never gets here). -/
 def resetRx (h : RecvHalf) (final : Nat) : Option ResetObs :=
   match h.phase with
-  | .recv => if final < h.largest then some .finalSize else some (.sync (final - h.largest))
+  | .recv =>
+    if final < h.largest then some .finalSize
+    else if final > h.msd then some .flowControl
+    else some (.sync (final - h.largest))
   | .sizeKnown fs => if final ≠ fs then some .finalSize else some (.sync 0)
   | .done => none
 
@@ -156,11 +168,13 @@ def Endpoint.deliver (e : Endpoint) (ms : List (Dir × Nat)) (k : FrameKind) (s 
     match lookup e.inputs s with
     | none => (e, .ok 0 ms)
     | some h =>
-      let e1 := { e with inputs := remove e.inputs s }     -- `set.remove(&sid)` comes first
+      -- `incoming.recv_reset(reset)?` validates first; only an accepted reset removes the stream
       match resetRx h a with
-      | none => (e1, .panic)
-      | some .finalSize => (e1, .err .finalSize)
+      | none => (e, .panic)
+      | some .finalSize => (e, .err .finalSize)
+      | some .flowControl => (e, .err .flowControl)
       | some (.sync n) =>
+        let e1 := { e with inputs := remove e.inputs s }
         let (e2, ms2, p) := e1.shutRecv s
         if p then (e2, .panic) else (e2, .ok n (ms ++ ms2))
   | _ => (e, .ok 0 ms)
@@ -180,7 +194,14 @@ def Endpoint.step (e : Endpoint) : EOp → Endpoint × EObs
   | .frame k s a b fin =>
     match codeGate k (sidRole s != e.role) (sidDir s) with
     | .streamState => (e, .err .streamState)
-    | .pass => e.deliver [] k s a b fin
+    | .pass =>
+      -- locally initiated id: `check_local_created(sid, local.opened_streams(dir), ..)`;
+      -- `opened_streams` locks the `LocalStreamIds` mutex (`unwrap`: panics when poisoned)
+      if checksCreated k then
+        if e.loc.poisoned then (e, .panic)
+        else if sidIdx s ≥ e.loc.openedStreams (sidDir s) then (e, .err .streamState)
+        else e.deliver [] k s a b fin
+      else e.deliver [] k s a b fin
     | .accept =>
       match e.acceptSid s with
       | none => (e, .err .streamLimit)
